@@ -74,6 +74,11 @@ func truncate(s *slip.Scope, f slip.Object, args slip.List, depth int) slip.Valu
 	num, div = slip.NormalizeNumber(num, div)
 	switch tn := num.(type) {
 	case slip.Fixnum:
+		if div.(slip.Fixnum) == -1 {
+			// The negation of the most negative fixnum is a bignum.
+			q, r = subFixnums(0, tn), slip.Fixnum(0)
+			break
+		}
 		q = tn / div.(slip.Fixnum)
 		r = tn - q.(slip.Fixnum)*div.(slip.Fixnum)
 	case slip.SingleFloat:
